@@ -80,7 +80,14 @@ func (s *RSchema) Example() ([]byte, error) {
 // concurrent use and advances on every call, so asking again (or from several
 // goroutines) would give other examples than the first call did.
 func (s *RSchema) generateExample() ([]byte, error) {
-	ex, err := s.exampleOnce.Do(func() ([]byte, error) {
+	ex, err := s.exampleOnce.Do(func() (ex []byte, err error) {
+		// The generator panics for an expression it cannot give a string for
+		// (a character class that matches nothing, like [^\s\S]).
+		defer func() {
+			if r := recover(); r != nil {
+				ex, err = nil, errs.ErrRegexExample.F(r)
+			}
+		}()
 		g, err := reggen.NewGenerator(s.pattern)
 		if err != nil {
 			return nil, err
